@@ -66,6 +66,9 @@ func (x *Exec) elemRangeAxiom(e *Env, arr *Term, elem types.Type) *Term {
 }
 
 func (x *Exec) havoc(e *Env, t types.Type, base string) Value {
+	if as := abstractSort(t); as != nil {
+		return Scalar{x.fresh(base, as), t}
+	}
 	switch u := t.Underlying().(type) {
 	case *types.Basic:
 		if u.Info()&types.IsString != 0 {
@@ -269,6 +272,32 @@ func (e *Env) resolveCallee(fun ast.Expr) (*types.Func, ast.Expr) {
 					if o, ok := p.Scope().Lookup(f.Sel.Name).(*types.Func); ok {
 						return o, nil
 					}
+				}
+			}
+		}
+		if e.contract && info == nil {
+			// method call on a value in contract text: resolve through the value's Go type
+			var rv Value
+			func() {
+				defer func() { recover() }()
+				rv = e.expr(f.X)
+			}()
+			var t types.Type
+			switch c := rv.(type) {
+			case AbsV:
+				t = c.Typ
+			case Scalar:
+				t = c.Typ
+			case StructV:
+				t = c.Typ
+			case SliceV:
+				t = c.Typ
+			case PtrV:
+				t = c.Typ
+			}
+			if t != nil {
+				if m := lookupMethod(t, f.Sel.Name); m != nil {
+					return m, f.X
 				}
 			}
 		}
@@ -593,6 +622,8 @@ func (e *Env) contractForm(name string, n *ast.CallExpr) (Value, bool) {
 			arr = Store(arr, IntC(i), v.T)
 		}
 		return ArrayV{T: arr, N: cnt, Elem: et, Typ: types.NewArray(et, cnt)}, true
+	case "hashcat":
+		return e.x.hashcatForm(e, n), true
 	case "blake2b256", "sha256", "sha512":
 		outLen := 32
 		if name == "sha512" {
@@ -727,6 +758,16 @@ func (e *Env) coerceSpecArg(v Value, t types.Type) Value {
 		if _, ok := t.Underlying().(*types.Array); ok {
 			return navigate(e.x.memCell(e.st, s.Alloc), s.Path)
 		}
+	case SliceV:
+		// a slice passed where a fixed-size array is expected: its first N elements
+		if at, ok := t.Underlying().(*types.Array); ok && at.Len() <= 4096 {
+			arr := e.x.memArr(e.st, s.Alloc, s.path)
+			out := ConstArr(e.zeroElem(at.Elem()))
+			for i := int64(0); i < at.Len(); i++ {
+				out = Store(out, IntC(i), Select(arr.T, Add(s.Off, IntC(i))))
+			}
+			return ArrayV{T: out, N: at.Len(), Elem: at.Elem(), Typ: t}
+		}
 	}
 	return v
 }
@@ -774,6 +815,13 @@ func (x *Exec) flatten(e *Env, v Value, t types.Type) []*Term {
 		arr := x.memArr(e.st, s.Alloc, s.path)
 		return []*Term{arr.T, s.Off, s.Len}
 	case ArrayV:
+		if s.N > 0 && s.N <= 64 {
+			var out []*Term
+			for i := int64(0); i < s.N; i++ {
+				out = append(out, Select(s.T, IntC(i)))
+			}
+			return out
+		}
 		return []*Term{s.T}
 	case AbsV:
 		return []*Term{s.T}
@@ -806,6 +854,16 @@ func (x *Exec) defineRec(e *Env, sf *SpecFn, spkg *packages.Package, name string
 			params = append(params, arr, off, ln)
 		case *types.Array:
 			es := e.R().sortOf(u.Elem())
+			if u.Len() > 0 && u.Len() <= 64 {
+				arr := ConstArr(e.zeroElem(u.Elem()))
+				for i := int64(0); i < u.Len(); i++ {
+					pv := Var(fmt.Sprintf("%s$%d", p.Name, i), es)
+					params = append(params, pv)
+					arr = Store(arr, IntC(i), pv)
+				}
+				names[p.Name] = ArrayV{T: arr, N: u.Len(), Elem: u.Elem(), Typ: t}
+				continue
+			}
 			arr := Var(p.Name+"$arr", ArrS(es))
 			names[p.Name] = ArrayV{T: arr, N: u.Len(), Elem: u.Elem(), Typ: t}
 			params = append(params, arr)
@@ -927,7 +985,14 @@ func (x *Exec) callFunc(e *Env, callee *types.Func, recvExpr ast.Expr, n *ast.Ca
 		}
 	}
 	c := x.contractOf(callee)
-	if e.contract || x.inGlobalInit > 0 {
+	if c == nil && sig.Recv() != nil {
+		if _, isIface := sig.Recv().Type().Underlying().(*types.Interface); isIface {
+			if v, ok := x.abstractMethod(e, callee, sig, args); ok {
+				return v
+			}
+		}
+	}
+	if (e.contract || x.inGlobalInit > 0) && !(c != nil && c.Assumed && !c.Inline) {
 		// contract text / initialisers: execute the body
 		return x.inlineCall(e, callee, c, args, n)
 	}
@@ -1018,7 +1083,18 @@ func (x *Exec) modularCall(e *Env, callee *types.Func, c *Contract, args []Value
 	for i, r := range c.PanicsWhen {
 		ce.where = r.Line
 		t := ce.boolTerm(ce.expr(r.Expr))
-		x.addObl("pre", fmt.Sprintf("nopanic.%s.%d.%d", short, ord, i+1), e.st, Not(t), x.pos(n))
+		if len(x.frames) == 1 && x.C != nil && len(x.C.PanicsWhen) > 0 && x.inGlobalInit == 0 {
+			// the callee's panic propagates: allowed exactly when the caller's contract allows a panic
+			var conds []*Term
+			pe := x.entryEnv(x.entry)
+			for _, pc := range x.C.PanicsWhen {
+				pe.where = pc.Line
+				conds = append(conds, pe.boolTerm(pe.expr(pc.Expr)))
+			}
+			x.addObl("panics", fmt.Sprintf("panics.via.%s.%d.%d", short, ord, i+1), e.st, Implies(t, Or(conds...)), x.pos(n))
+		} else {
+			x.addObl("pre", fmt.Sprintf("nopanic.%s.%d.%d", short, ord, i+1), e.st, Not(t), x.pos(n))
+		}
 		e.st.assume(Not(t))
 	}
 	pre = e.st.fork()
@@ -1036,7 +1112,17 @@ func (x *Exec) modularCall(e *Env, callee *types.Func, c *Contract, args []Value
 		if i < len(c.Results) {
 			nm = c.Results[i]
 		}
-		v := x.havocNamed(e, rs.At(i).Type(), short+"."+nm, hasName(c.BVNames, nm))
+		var v Value
+		if pn, ok := c.Returns[nm]; ok {
+			pv, isPtr := ce.names[pn].(PtrV)
+			if !isPtr {
+				unsupported("%s: returns %s %s: parameter is not a pointer", c.Where, nm, pn)
+			}
+			pv.Nil = x.fresh(short+"."+nm+".nil", BoolS)
+			v = pv
+		} else {
+			v = x.havocNamed(e, rs.At(i).Type(), short+"."+nm, hasName(c.BVNames, nm))
+		}
 		results = append(results, v)
 		ce.names[nm] = v
 	}
@@ -1368,4 +1454,39 @@ func lookupMethod(t types.Type, name string) *types.Func {
 		}
 	}
 	return nil
+}
+
+// abstractMethod: a method of an interface value without contract is an uninterpreted function of
+// the receiver (and scalar arguments) when its results are scalars.
+func (x *Exec) abstractMethod(e *Env, callee *types.Func, sig *types.Signature, args []Value) (Value, bool) {
+	var recv *Term
+	switch r := args[0].(type) {
+	case AbsV:
+		recv = r.T
+	case Scalar:
+		recv = r.T
+	default:
+		return nil, false
+	}
+	ts := []*Term{recv}
+	for _, a := range args[1:] {
+		s, ok := a.(Scalar)
+		if !ok {
+			return nil, false
+		}
+		ts = append(ts, s.T)
+	}
+	if sig.Results().Len() != 1 {
+		return nil, false
+	}
+	rt := sig.Results().At(0).Type()
+	rs := e.R().sortOf(rt)
+	if rs == nil {
+		return nil, false
+	}
+	_, key := funcKey(callee)
+	v := App("method$"+key, rs, ts...)
+	e.st.assume(e.R().rangeOf(v, rt))
+	x.trusted["interface method "+key+" as a function of its receiver"] = true
+	return Scalar{v, rt}, true
 }
